@@ -21,7 +21,7 @@ PID = "C04"
 DESIGN_REF = "DESIGN.md section 2 / C04"
 ENGINE = "seqspace (full product of a finite catalogue)"
 RULE = ("cases = molecule x geometry(2) x reference(RHF/ROHF, UHF) x frozen-orbital pattern x active-space rotation "
-        "(id, Givens occ-virt, pi/2 virt-virt swap, occ-occ mix) x encoding(JW,BK,scBK,JKMN) x ordering(2); each case "
+        "(id, Givens occ-virt, pi/2 virt-virt swap, occ-occ mix; thorough: + composite) x encoding(JW,BK,scBK,JKMN) x ordering(2); each case "
         "compares the encoded reference-determinant energy, the (n_alpha,n_beta)-sector minimum of the qubit Hamiltonian, "
         "FCISolver/CCSDSolver and Tangelo's orbital/electron bookkeeping with the PySCF oracle; a case is non-trivial "
         "when at least one mechanism beyond plain RHF/JW is exercised: frozen orbitals folded, open-shell or "
@@ -31,8 +31,8 @@ RULE = ("cases = molecule x geometry(2) x reference(RHF/ROHF, UHF) x frozen-orbi
 ASSUMPTIONS = [
     "basis sets / molecules outside the catalogue, > 12 active spin-orbitals, Psi4 back-end: not explored",
     "geometries: two per molecule (near-equilibrium and stretched), uniformly scaled by 1+0.05*d, d seed-derived",
-    "rotations: one representative per kind (Givens angle 0.3+0.2*d, exact pi/2 swap, occ-occ angle 0.7-0.2*d); for UHF "
-    "alpha and beta are rotated by different angles",
+    "rotations: one representative per kind (Givens angle 0.3+0.2*d, exact pi/2 swap, occ-occ angle 0.7-0.2*d; thorough "
+    "adds one composite rotation, alpha-only for UHF); for UHF alpha and beta are rotated by different angles",
     "sector of the qubit Hamiltonian fixed with N_alpha, N_beta mapped by the same Tangelo mapping call (their "
     "faithfulness is C03's subject; they must come out diagonal) and cross-checked by direct decoding for JW",
     "tolerances: 1e-7 Ha for the reference-determinant energy and for rotation invariance, 1e-6 Ha for sector minima "
@@ -109,32 +109,43 @@ PATTERNS = {
                   ("perspin_unequal", [[], [2]], Q), ("perspin_unequal", [[1, 2], []], Q)]},
     "H3": {"r": [("none", None, Q), ("int", 1, Q), ("contiguous", [0], Q), ("contiguous", [2], Q)],
            "u": [("none", None, Q), ("int", 1, Q), ("perspin_equal", [[2], [2]], Q), ("perspin_unequal", [[0], []], Q),
-                 ("perspin_unequal", [[], [0]], Q), ("perspin_shifted", [[2], [1]], Q), ("perspin_unequal", [[0, 2], [1]], Q)]},
+                 ("perspin_unequal", [[], [0]], Q), ("perspin_shifted", [[2], [1]], Q), ("perspin_unequal", [[0, 2], [1]], Q),
+                 ("perspin_shifted_occ", [[1], [0]], Q), ("perspin_unequal", [[0, 1], []], Q)]},
     "H4chain": {"r": [("none", None, Q), ("int", 1, Q), ("contiguous", [1, 2], Q), ("noncontig_occ_virt", [0, 3], Q),
                       ("interior_virtual", [2], Q), ("noncontig_occ_virt", [0, 2], Q), ("contiguous", [3], Q)],
                 "u": [("none", None, Q), ("int", 1, Q), ("perspin_equal", [[0, 3], [0, 3]], Q),
                       ("perspin_equal", [[2], [2]], Q), ("perspin_unequal", [[1], []], Q),
-                      ("perspin_unequal", [[3], [0, 2]], Q), ("perspin_shifted", [[0, 2], [1, 3]], Q)]},
+                      ("perspin_unequal", [[3], [0, 2]], Q), ("perspin_shifted", [[0, 2], [1, 3]], Q),
+                      ("perspin_shifted_occ", [[0], [1]], Q), ("perspin_shifted_occ", [[0, 3], [1, 2]], Q)]},
     "H4triplet": {"r": [("none", None, Q), ("int", 1, Q), ("contiguous", [3], Q), ("noncontig_occ_virt", [0, 3], Q)],
                   "u": [("none", None, Q), ("int", 1, Q), ("perspin_equal", [[3], [3]], Q),
                         ("perspin_unequal", [[0], [0, 2]], Q), ("perspin_unequal", [[1], []], Q),
-                        ("perspin_unequal", [[], [0]], Q), ("perspin_shifted", [[0, 3], [0, 2]], Q)]},
+                        ("perspin_unequal", [[], [0]], Q), ("perspin_shifted", [[0, 3], [0, 2]], Q),
+                        ("perspin_shifted_occ", [[1], [0]], Q), ("perspin_shifted_occ", [[0, 2], [0, 3]], Q)]},
     "LiH": {"r": [("contiguous_occ_virt", [0, 4, 5], Q), ("noncontig_occ_virt", [0, 3, 4], Q), ("interior_virtual", [2, 3], Q),
                   ("noncontig_occ_virt", [0, 3], Q), ("none", None, T), ("int", 1, T), ("interior_virtual", [3], T),
-                  ("noncontig_occ_virt", [0, 5], T)],
+                  ("noncontig_occ_virt", [0, 5], T), ("frozen_core_default", "frozen_core", T)],
             "u": [("perspin_equal", [[0, 4, 5], [0, 4, 5]], Q), ("perspin_equal", [[0, 3, 4], [0, 3, 4]], Q),
                   ("perspin_shifted", [[0, 3], [0, 5]], Q), ("perspin_unequal", [[0, 4, 5], [0, 5]], Q),
-                  ("perspin_unequal", [[2, 3], [0, 2, 3]], Q), ("none", None, T), ("int", 1, T),
-                  ("perspin_equal", [[3], [3]], T), ("perspin_unequal", [[0], [0, 5]], T)]},
+                  ("perspin_unequal", [[2, 3], [0, 2, 3]], Q), ("perspin_shifted_occ", [[0, 4, 5], [1, 4, 5]], Q),
+                  ("none", None, T), ("int", 1, T),
+                  ("perspin_equal", [[3], [3]], T), ("perspin_unequal", [[0], [0, 5]], T),
+                  ("frozen_core_default", "frozen_core", T)]},
     "H2O": {"r": [("int", 1, T), ("int", 2, T), ("contiguous", [0, 1, 2], T), ("noncontig_occ_virt", [0, 2, 6], T),
                   ("interior_virtual", [5], T), ("noncontig_occ_virt", [0, 6], T), ("noncontig_occ_virt", [0, 1, 5], T)],
             "u": [("int", 2, T), ("perspin_equal", [[0, 1, 2], [0, 1, 2]], T), ("perspin_shifted", [[0, 1, 6], [0, 1, 5]], T),
                   ("perspin_unequal", [[0, 1, 2], [0, 1]], T), ("perspin_unequal", [[0, 1, 2, 6], [0, 1, 2]], T),
-                  ("perspin_unequal", [[0, 1], [0, 1, 3]], T)]},
+                  ("perspin_unequal", [[0, 1], [0, 1, 3]], T), ("perspin_shifted_occ", [[0, 1, 3], [0, 2, 4]], T)]},
 }
 PATTERNS["H4rect"] = PATTERNS["H4chain"]
 MOL_ORDER = ["H2", "H2_631g", "HeH+", "H3+", "H3", "H4chain", "H4rect", "H4triplet", "LiH", "H2O"]
 ROTATIONS = ("id", "ov", "vv", "oo")
+ROTATIONS_T = ROTATIONS + ("mix",)     # thorough: composite rotation; for UHF applied to the alpha orbitals only
+
+
+def n_core_orbitals(name):
+    """The documented 'frozen_core' default: one 1s core orbital per second-row atom of the catalogue."""
+    return sum(1 for el, _ in _geom(name) if el not in ("H", "He"))
 
 
 def geometry(name, gi, seed):
@@ -144,7 +155,7 @@ def geometry(name, gi, seed):
 
 def angles(seed):
     d = runner.seed_delta(seed)
-    return {"ov": round(0.3 + 0.2 * d, 6), "oo": round(0.7 - 0.2 * d, 6)}
+    return {"ov": round(0.3 + 0.2 * d, 6), "oo": round(0.7 - 0.2 * d, 6), "mix": round(-0.45 - 0.1 * d, 6)}
 
 
 # ---------------------------------------------------------------------------------------------------------------------
@@ -226,10 +237,12 @@ def _pauli_selftest():
 # ---------------------------------------------------------------------------------------------------------------------
 # expected bookkeeping (harness side, from the PySCF occupations and the frozen spec only)
 
-def expected_partition(mo_occ, spec, uhf, nmo):
+def expected_partition(mo_occ, spec, uhf, nmo, n_core=0):
     """Per-spin frozen-occupied / frozen-virtual / active (occupied first) lists and active electron numbers."""
     if spec is None:
         spec = 0
+    if spec == "frozen_core":
+        spec = n_core
     if isinstance(spec, int):
         fr = [list(range(spec)), list(range(spec))]
     elif uhf:
@@ -296,10 +309,22 @@ def rotation(kind, part, uhf, nmo, ang):
             return swap90(nmo, av[0], av[-1]) if len(av) >= 2 else None
         if kind == "oo":
             return givens(nmo, ao[0], ao[-1], scale * ang["oo"]) if len(ao) >= 2 else None
+        if kind == "mix":
+            if not (ao and av) or len(ao) + len(av) < 3:
+                return None
+            R = givens(nmo, ao[0], av[-1], ang["mix"]) @ givens(nmo, ao[-1], av[0], ang["ov"])
+            if len(av) >= 2:
+                R = R @ swap90(nmo, av[0], av[-1])
+            if len(ao) >= 2:
+                R = R @ givens(nmo, ao[0], ao[-1], ang["oo"])
+            return R
         raise KeyError(kind)
 
     if not uhf:
         return one(0, 1.0)
+    if kind == "mix":
+        Ra = one(0, 1.0)
+        return None if Ra is None else (Ra, np.eye(nmo))
     Ra, Rb = one(0, 1.0), one(1, -0.6)
     if Ra is None and Rb is None:
         return None
@@ -418,17 +443,36 @@ class Combo:
 
     # -----------------------------------------------------------------------------------------------------------------
     def run_pattern(self, label, spec, rots=ROTATIONS, encs=ENCODINGS, orderings=ORDERINGS):
+        """Everything for one frozen-orbital pattern: bookkeeping, then rotations x encodings x orderings."""
         from tangelo.toolboxes.qubit_mappings.mapping_transform import fermion_to_qubit_mapping, get_qubit_number
         from tangelo.toolboxes.qubit_mappings.statevector_mapping import get_reference_circuit
         acc, mol, uhf = self.acc, self.mol, self.uhf
         sigp = f"{self.ref}:{label}"
         case0 = self.case(label, spec, "id")
         try:
+            mol.freeze_mos(None)
+            full = repr(mol.active_mos)
+            cp = mol.freeze_mos(spec, inplace=False)
+            untouched = (repr(mol.active_mos) == full)
             mol.freeze_mos(spec)
         except Exception as e:
             self.bad("freeze_mos", "exception", sigp, case0, {"err": repr(e)[:300]})
             return
-        part = expected_partition(self.mo_occ, spec, uhf, self.nmo)
+        # freeze_mos(inplace=False): the original keeps its (empty) frozen set, the copy describes the same active space
+        acc.ev()
+        try:
+            same = (cp.active_mos == mol.active_mos and cp.frozen_mos == mol.frozen_mos
+                    and tuple(cp.n_active_ab_electrons) == tuple(mol.n_active_ab_electrons)
+                    and cp.n_active_sos == mol.n_active_sos)
+            if same and "id" in rots:
+                ta, tb = cp.fermionic_hamiltonian.terms, mol.fermionic_hamiltonian.terms
+                same = set(ta) == set(tb) and all(abs(ta[k] - tb[k]) < 1e-12 for k in ta)
+            if not (same and untouched):
+                self.bad("freeze_mos(inplace=False)", "copy-differs-or-original-changed", sigp, case0,
+                         {"original_untouched": bool(untouched), "copy_equivalent": bool(same)})
+        except Exception as e:
+            self.bad("freeze_mos(inplace=False)", "exception", sigp, case0, {"err": repr(e)[:300]})
+        part = expected_partition(self.mo_occ, spec, uhf, self.nmo, n_core_orbitals(self.name))
         n_alpha, n_beta = part["nelec"]
         n_reg = 2 * max(len(part["active"][0]), len(part["active"][1]))
 
@@ -482,6 +526,13 @@ class Combo:
                 acc.count("oracle_crosschecked")
                 if abs(e_x - e_cas) > TOL_ORACLE:
                     raise RuntimeError(f"oracle routes disagree: AO fold {e_cas} vs mcscf {e_x} for {caser}")
+            elif len(act[0]) + len(act[1]) <= 10:
+                # unequal alpha/beta active spaces: second route = naive numpy determinant-space diagonalisation
+                ecore, h1, g2 = CH.active_space(self.mf, Cn, fo, act, self.ints)
+                e_x = CH.fock_space_min(ecore, h1, g2, (n_alpha, n_beta))
+                acc.count("oracle_crosschecked(naive determinant FCI, unequal active spaces)")
+                if abs(e_x - e_cas) > TOL_ORACLE:
+                    raise RuntimeError(f"oracle routes disagree: direct_uhf(padded) {e_cas} vs naive {e_x} for {caser}")
             else:
                 acc.count("oracle_single_route(unequal active spaces)")
             occ_a = part["frozen_occ"][0] + part["active"][0][:n_alpha]
@@ -686,7 +737,7 @@ def run_shard(sh):
     pats = _patterns(sh["kind"], sh["uhf"], sh["tier"])
     for i in sh["pat"]:
         label, spec = pats[i]
-        cb.run_pattern(label, spec)
+        cb.run_pattern(label, spec, rots=ROTATIONS_T if sh["tier"] == T else ROTATIONS)
     return acc
 
 
@@ -713,7 +764,7 @@ def bounds(tier, seed):
                                             "patterns_RHF/ROHF": [[l, s] for l, s in _patterns(n, False, tier)],
                                             "patterns_UHF": [[l, s] for l, s in _patterns(n, True, tier)]}
                                         for n in MOL_ORDER if _patterns(n, False, tier) or _patterns(n, True, tier)},
-            "rotations": list(ROTATIONS), "angles": angles(seed), "encodings": list(ENCODINGS),
+            "rotations": list(ROTATIONS_T if tier == T else ROTATIONS), "angles": angles(seed), "encodings": list(ENCODINGS),
             "orderings(up_then_down)": list(ORDERINGS), "max_active_spin_orbitals": 8 if tier == Q else 12,
             "tolerances": {"TOL_E": TOL_E, "TOL_CI": TOL_CI, "TOL_ORACLE": TOL_ORACLE, "TOL_HERM": TOL_HERM}}
 
